@@ -65,13 +65,17 @@ pub fn union_clone_h() {
     let a = oracle::mk(&mut KaniSrc);
     let c = Clone::clone(&a);
     assert!(oracle::bytes(&c) == oracle::bytes(&a), "contract: clone is a bitwise copy");
+    let mut t = oracle::mk(&mut KaniSrc);
+    Clone::clone_from(&mut t, &a);
+    assert!(oracle::bytes(&t) == oracle::bytes(&a), "contract: after t.clone_from(&a) every byte of t is that of a");
     oracle::needs_copy::<TI>();
     kani::cover!(true);
 }
 """ % (n + 2))
         u.kani_oracle.append("pub fn needs_copy<T: Copy>() {}\n")
-        u.kani_obls["union_clone_h"] = ("%s/%s/Clone::clone/contract" % (prop, P.pid), "bytes(a.clone()) == bytes(a); the union is Copy")
-        u.replay.append('{ let a = oracle::mk(s); let c = Clone::clone(&a); chk(out, "bytes(a.clone())", oracle::bytes(&c), oracle::bytes(&a)); }')
+        u.kani_obls["union_clone_h"] = ("%s/%s/Clone::clone/contract" % (prop, P.pid), "bytes(a.clone()) == bytes(a); after t.clone_from(&a): bytes(t) == bytes(a); the union is Copy")
+        u.replay.append('{ let a = oracle::mk(s); let c = Clone::clone(&a); chk(out, "bytes(a.clone())", oracle::bytes(&c), oracle::bytes(&a));\n'
+                        '      let mut t = oracle::mk(s); Clone::clone_from(&mut t, &a); chk(out, "bytes(t) after t.clone_from(&a)", oracle::bytes(&t), oracle::bytes(&a)); }')
 
 
 # ---------------------------------------------------------------------------------
